@@ -551,6 +551,45 @@ def keyword_family(acc, scratch):
                 acc.violation("generated-parser-differs-from-peg-semantics", {"grammar": text, "word": word}, {"generated": repr(got)[:200], "reference": want})
 
 
+def cut_family(acc, scratch, length):
+    """a cut that is reached and followed by a failing item, under every kind of caller: the position after the failure must be the one
+    before the alternative, whoever asks (an optional continues the sequence from wherever the callee left the tokenizer)"""
+    def lit(s):
+        return Named(None, Lit(s))
+
+    def alt(tag, *items, names=()):
+        return Alt(tuple(items), "('%s', %s)" % (tag, ", ".join(names)) if names else "('%s',)" % tag)
+
+    cut_alts = (alt("c1", lit("x"), Named(None, Cut()), lit("+")), alt("c2", lit("x")))
+    grp = Group(cut_alts)
+    d_alts = (alt("d1", lit("+"), Named(None, Cut()), lit("a")), alt("d2", lit("+")))
+
+    def start(*items, names=("a",)):
+        return Rule("start", (Alt(tuple(items) + (Named(None, Cls("ENDMARKER")),), "('S', %s)" % ", ".join(names)),))
+
+    grammars = {
+        "optional-rule": [start(Named("a", Opt(Ref("c"))), lit("x"), lit("b")), Rule("c", cut_alts)],
+        "optional-memo-rule": [start(Named("a", Opt(Ref("c"))), Named("b", Opt(Ref("c"))), lit("x"), names=("a", "b")), Rule("c", cut_alts, memo=True)],
+        "optional-group": [start(Named("a", Opt(grp)), lit("x"), lit("b"))],
+        "optional-then-name": [start(Named("a", Opt(Ref("c"))), Named("b", Cls("NAME")), names=("a", "b")), Rule("c", cut_alts)],
+        "star": [start(Named("a", Star(Ref("c"))), lit("x"), lit("b")), Rule("c", cut_alts)],
+        "plus-group": [start(Named("a", Plus(grp)), Named("b", Opt(Lit("x"))), names=("a", "b"))],
+        "gather": [start(Named("a", Gather(Lit("b"), Ref("c"))), Named("b", Opt(Lit("x"))), names=("a", "b")), Rule("c", cut_alts)],
+        "lookahead": [start(Named(None, PosLA(Ref("c"))), Named("a", Cls("NAME")), Named("b", Opt(Lit("+"))), names=("a", "b")), Rule("c", cut_alts)],
+        "negative-lookahead": [start(Named(None, NegLA(grp)), Named("a", Cls("NAME"))), ],
+        "start-rule-itself": [Rule("start", (Alt((lit("x"), Named(None, Cut()), lit("+"), Named(None, Cls("ENDMARKER"))), "('s1',)"), Alt((lit("x"), lit("b"), Named(None, Cls("ENDMARKER"))), "('s2',)")))],
+        "nested-cuts": [start(Named("a", Opt(Ref("c"))), Named("b", Opt(Ref("d"))), Named("e", Star(Cls("NAME"))), names=("a", "b", "e")),
+                        Rule("c", (alt("c1", lit("x"), Named(None, Cut()), Named("d", Ref("d")), names=("d",)), alt("c2", lit("x")))), Rule("d", d_alts)],
+        "cut-in-left-recursion": [start(Named("a", Ref("e")), Named("b", Opt(Lit("+"))), names=("a", "b")),
+                                  Rule("e", (alt("e1", Named("l", Ref("e")), lit("+"), Named(None, Cut()), Named("r", Cls("NAME")), names=("l", "r")), Alt((Named(None, Cls("NAME")),), None)))],
+        "forced-after-optional-cut": [start(Named("a", Opt(grp)), Named("b", Opt(Forced(Lit("b")))), Named("e", Star(Lit("x"))), names=("a", "e"))],
+    }
+    words = ["".join(w) for l in range(length + 1) for w in itertools.product("abx+", repeat=l)]
+    for name, rules in grammars.items():
+        acc.count("cut_family_grammars")
+        check_grammar(acc, rules, words, scratch, "cut-family:" + name, variants=True)
+
+
 def fold_family(acc, rnd, scratch):
     """left-recursive operator rules against a left fold (shares nothing with seed growing)"""
     variants = [
@@ -610,6 +649,7 @@ def run_shard(shard):
         if shard["idx"] == 0:
             fold_family(acc, rnd, scratch)
             keyword_family(acc, scratch)
+            cut_family(acc, scratch, L + 1)
         for _ in range(shard["grammars"]):
             g = G(rnd, rnd.randint(2, 6))
             rules = g.build()
